@@ -905,3 +905,106 @@ func TestD27_DijkstraPathSumOverflow(t *testing.T) {
 		t.Errorf("unreachable vertex 4 has predecessor %v", edgeTo[4])
 	}
 }
+
+// D28 (C08, C16): options given at construction apply to later operations
+// unless overridden. Redefine honoured a default FilterInput but ignored a
+// default FilterOutput: redefineOutputs built its options without the
+// function's defaults.
+func TestD28_RedefineHonoursDefaultFilterOutput(t *testing.T) {
+	onlyStrings := argmapper.FilterType(reflect.TypeOf(""))
+	fn := func(a int) int { return a }
+	// given to Redefine directly: rejected
+	f1 := argmapper.MustFunc(argmapper.NewFunc(fn))
+	if _, err := f1.Redefine(argmapper.FilterOutput(onlyStrings)); err == nil {
+		t.Fatalf("control: Redefine accepted an output the filter rejects")
+	}
+	// given as a default of the function: must be rejected as well
+	f2 := argmapper.MustFunc(argmapper.NewFunc(fn, argmapper.FilterOutput(onlyStrings)))
+	if _, err := f2.Redefine(); err == nil {
+		t.Fatalf("Redefine ignored the function's default FilterOutput")
+	}
+	// a filter given to Redefine overrides the default
+	if _, err := f2.Redefine(argmapper.FilterOutput(argmapper.FilterType(reflect.TypeOf(0)))); err != nil {
+		t.Fatalf("a FilterOutput given to Redefine must override the default: %v", err)
+	}
+}
+
+// D31 (C08): a redefined function yields the original function's own results.
+// When the original returned values NEXT TO a non-nil error -- (n, io.EOF) is
+// ordinary Go -- the wrapper mistook that for a failed call and returned zero
+// values with the error.
+func TestD31_RedefinedFunctionKeepsResultsNextToAnError(t *testing.T) {
+	eof := errors.New("short read")
+	orig := argmapper.MustFunc(argmapper.NewFunc(func(a int) (int, string, error) { return a * 2, "partial", eof }))
+	direct := orig.Call(argmapper.Typed(21))
+	if direct.Err() != eof || direct.Out(0).(int) != 42 || direct.Out(1).(string) != "partial" {
+		t.Fatalf("control: direct call gives %v %v %v", direct.Out(0), direct.Out(1), direct.Err())
+	}
+	red, err := orig.Redefine()
+	if err != nil {
+		t.Fatal(err)
+	}
+	res, p := call(red, argmapper.Typed(21))
+	if p != nil {
+		t.Fatalf("panic: %v", p)
+	}
+	if res.Err() != eof {
+		t.Fatalf("error: %v", res.Err())
+	}
+	if res.Len() != 2 || res.Out(0).(int) != 42 || res.Out(1).(string) != "partial" {
+		t.Fatalf("redefined function returned (%v, %v) next to the error, the original returns (42, partial)", res.Out(0), res.Out(1))
+	}
+	// a call that fails to resolve still has no results, only the error
+	res, _ = call(red)
+	if res.Err() == nil || res.Len() != 0 {
+		t.Fatalf("unresolved call: len=%d err=%v", res.Len(), res.Err())
+	}
+}
+
+// D27b (C05, found by C09 and C05 right after D27's repair): the first version
+// of the overflow guard computed maxInt-u.distance, which itself overflows when
+// u's distance is negative -- and the library's own call graph uses the weight
+// -1 as its same-name discount, so distances of -1 are normal there. Every
+// edge leaving such a vertex was skipped and derivable arguments came out
+// unsatisfied.
+func TestD27b_OverflowGuardWithNegativeDistances(t *testing.T) {
+	var g graph.Graph
+	for i := 0; i < 3; i++ {
+		g.Add(i)
+	}
+	g.AddEdgeWeighted(0, 1, -1)
+	g.AddEdgeWeighted(1, 2, 1)
+	distTo, edgeTo := g.Dijkstra(0)
+	if distTo[1] != -1 || distTo[2] != 0 {
+		t.Errorf("distances: %v", distTo)
+	}
+	if p := g.EdgeToPath(2, edgeTo); len(p) != 3 {
+		t.Errorf("path to 2: %v", p)
+	}
+	// through the public API: a named parameter converted from a same-named
+	// input (the discounted edge) next to a second parameter
+	type in struct {
+		argmapper.Struct
+		B *int
+		A string
+	}
+	target := argmapper.MustFunc(argmapper.NewFunc(func(i in) string { return fmt.Sprint(*i.B, i.A) }))
+	conv := func(s struct {
+		argmapper.Struct
+		B int
+	}) struct {
+		argmapper.Struct
+		B *int
+	} {
+		return struct {
+			argmapper.Struct
+			B *int
+		}{B: &s.B}
+	}
+	for i := 0; i < 50; i++ {
+		res, p := call(target, argmapper.NamedSubtype("b", 5, "s"), argmapper.Named("a", "x"), argmapper.Converter(conv))
+		if p != nil || res.Err() != nil {
+			t.Fatalf("iteration %d: %v %v", i, p, res.Err())
+		}
+	}
+}
